@@ -351,6 +351,10 @@ def part_symfiles(ctx, h):
                 loaded2, _ = parse_tab(h.run(["LOADSYM %s" % fn2]))
                 cases.append((tag, None, None, None, None, blob, loaded2))
                 ctx.case(key=("S", tag, blob), tags=["S:" + tag], size=len(loaded2))
+    eval_symfiles(ctx, cases)
+
+
+def eval_symfiles(ctx, cases):
     defs = "Definition sv : list (symtab * str * str * option str) := [\n%s\n].\n" % ";\n".join(
         "(%s, %s, %s, %s)" % (ctab(c[1]), cstr(c[2]), cstr(c[3]), copt(c[4], cstr)) for c in cases if c[1] is not None)
     defs += "Definition ld : list (str * symtab) := [\n%s\n].\n" % ";\n".join(
@@ -369,10 +373,11 @@ def part_symfiles(ctx, h):
         return
     r = {k: coq.parse_nat_list(v) for k, v in res.items()}
     sv = [c for c in cases if c[1] is not None]
+    jtab = lambda t: [list(x[:3]) + [x[3] if isinstance(x[3], str) else x[3].decode("latin1")] for x in t]
     for i in r["vrt"][:2]:
         c = sv[i]
         ctx.violation("a symbol table saved by save_module_symbol_file does not reload to the identical table",
-                      {"part": "S", "table": c[1], "path": c[2], "build_id": c[3], "reloaded": [list(x[:3]) + [x[3].decode("latin1")] for x in c[6]]}, True)
+                      {"part": "S", "table": jtab(c[1]), "path": c[2], "build_id": c[3], "reloaded": jtab(c[6])}, True)
     if (r["msave"] or r["mload"]) and not r["vrt"]:
         if r["msave"]:
             c = sv[r["msave"][0]]
@@ -381,8 +386,30 @@ def part_symfiles(ctx, h):
             c = cases[r["mload"][0]]
             what = "load_module_symbol_file"
         ctx.violation("model and utils/symbol.c %s disagree (%d files)" % (what, len(r["msave"]) + len(r["mload"])),
-                      {"part": "S", "tag": c[0], "table": c[1], "file": c[5].decode("latin1"),
-                       "impl_loaded": [list(x[:3]) + [x[3].decode("latin1")] for x in c[6]]}, False)
+                      {"part": "S", "tag": c[0], "table": jtab(c[1]) if c[1] is not None else None, "path": c[2], "build_id": c[3],
+                       "file": c[5].decode("latin1"), "impl_loaded": jtab(c[6])}, False)
+
+
+def replay_symfile(ctx, h, obj):
+    d = os.path.join(ctx.scratch, "symfiles")
+    os.makedirs(d, exist_ok=True)
+    fn = os.path.join(d, "replay.sym")
+    if obj.get("table") is not None:
+        tab = [(a, sz, t, n) for a, sz, t, n in obj["table"]]
+        lines = ["TAB %d" % len(tab)] + ["%d %d %d %s" % (a, sz, ord(t), hx(n.encode("latin1"))) for a, sz, t, n in tab]
+        lines += ["SAVESYM %s %s %s" % (fn, hx(obj["path"]), hx(obj["build_id"])), "LOADSYM %s" % fn]
+        out = h.run(lines)
+        saved = open(fn, "rb").read() if os.path.exists(fn) else None
+        loaded, _ = parse_tab(out[2:])
+        case = ("roundtrip", [(a, sz, t, n.encode("latin1")) for a, sz, t, n in tab], obj["path"], obj["build_id"], saved, saved or b"", loaded)
+    else:
+        blob = obj["file"].encode("latin1")
+        open(fn, "wb").write(blob)
+        loaded, _ = parse_tab(h.run(["LOADSYM %s" % fn]))
+        case = (obj.get("tag", "file"), None, None, None, None, blob, loaded)
+    ctx.case(key="replay", sample={"impl_loaded": [list(x[:3]) + [x[3].decode("latin1")] for x in loaded][:8]})
+    ctx.log("replayed symbol file: %d symbols loaded" % len(loaded))
+    eval_symfiles(ctx, [case])
 
 
 # ---------------------------------------------------------------- M: map files
@@ -825,6 +852,10 @@ def part_datadirs(ctx, h):
                          "impl": (ans[0][2].decode() if ans[0] else None)} if i == 0 else None)
         ctx.tag("D:probe-hit", hit)
         ctx.tag("D:probe-miss", len(ans) - hit)
+    eval_datadirs(ctx, cases)
+
+
+def eval_datadirs(ctx, cases):
     defs = D_DEFS + "Definition dc : list (datadir * list gt_session * list (Z * list (Z * nat)) * list (Z * Z * Z * option (Z * Z * str))) := [\n"
     items = []
     for st, maps, probes, ans, withsyms in cases:
@@ -846,11 +877,30 @@ def part_datadirs(ctx, h):
                       story_replay(st, probes, ans, withsyms), False)
 
 
+def replay_datadir(ctx, h, obj):
+    st = Story(ctx.rng)
+    st.events = [tuple(e) for e in obj["events"]]
+    st.sessions = [dict(s, maps=[tuple(m) for m in s["maps"]], dl=[tuple(x) for x in s["dl"]]) for s in obj["sessions"]]
+    st.timeline = {int(k): [tuple(x) for x in v] for k, v in obj["timeline"].items()}
+    st.modules = {k: [tuple(x) for x in v] for k, v in obj["modules"].items()}
+    st.files = {k: v.encode("latin1") for k, v in obj["files"].items()}
+    st.bids = obj.get("bids", {k: "" for k in st.modules})
+    withsyms = bool(obj.get("with_syms"))
+    d = os.path.join(ctx.scratch, "replay-dd")
+    symdir = os.path.join(d, "syms") if withsyms else d
+    maps = story_files(st, d, symdir)
+    probes = [tuple(p) for p in obj["probes"]]
+    ans = run_story(h, d, symdir, probes)
+    ctx.case(key="replay", sample={"impl": [None if a is None else a[2].decode("latin1") for a in ans][:8]})
+    ctx.log("replayed data directory: %d probes, %d resolved" % (len(probes), sum(1 for a in ans if a)))
+    eval_datadirs(ctx, [(st, maps, probes, ans, withsyms)])
+
+
 def story_replay(st, probes, ans, withsyms):
     return {"part": "D", "events": [list(e) for e in st.events],
             "sessions": st.sessions, "timeline": {str(k): v for k, v in st.timeline.items()},
             "modules": {k: [list(x) for x in v] for k, v in st.modules.items()},
-            "files": {k: v.decode("latin1") for k, v in st.files.items()}, "with_syms": withsyms,
+            "files": {k: v.decode("latin1") for k, v in st.files.items()}, "with_syms": withsyms, "bids": st.bids,
             "probes": [list(p) for p in probes], "impl": [None if a is None else [a[0], a[1], a[2].decode("latin1")] for a in ans]}
 
 
@@ -1000,11 +1050,13 @@ def replay(ctx, obj):
         if sa + sz < W64 and (r == 0) != (sa <= a < sa + sz):
             ctx.violation("addrfind misplaces an address relative to [addr, addr+size)", dict(obj, impl=r), True)
     else:
-        ctx.log("replay of part %r: re-running the whole check with the recorded seed" % part)
+        if part not in ("D", "S"):
+            ctx.log("replay of part %r: re-running that part with the recorded seed" % part)
         ctx.rng.seed(obj.get("seed", ctx.seed))
-        run_parts = {"S": part_symfiles, "D": part_datadirs}
-        if part in run_parts:
-            run_parts[part](ctx, h)
+        if part == "D" and "events" in obj:
+            replay_datadir(ctx, h, obj)
+        elif part == "S" and ("table" in obj or "file" in obj):
+            replay_symfile(ctx, h, obj)
         elif part == "M":
             part_maps(ctx, h, objdir)
         elif part == "E":
